@@ -36,6 +36,12 @@ fn asm(isa: &Isa, name: &str, f: Fields) -> Vec<u8> {
 ///       4 / 5 / 6 a failing instruction whose last word ends exactly at the exit address (NOP; the 4-byte
 ///       LDC.W @ER0,CCR; a 6-byte store to an unmapped address), so that PC == exit address when it fails
 pub fn build(isa: &Isa, shape: usize, n: u32, fail: usize) -> Prog {
+    build_pad(isa, shape, n, fail, 0)
+}
+
+/// Same, with `pad` extra `MOV.B @aa:8,R6L` instructions (a byte read from on-chip RAM: the cheapest step that
+/// moves the running total by a different amount than a fetch from DRAM) in front of the loop.
+pub fn build_pad(isa: &Isa, shape: usize, n: u32, fail: usize, pad: usize) -> Prog {
     let mut c: Vec<u8> = Vec::new();
     let f = |rd: u8, rs: u8, data: u32| Fields { rd, rs, data, ..Default::default() };
     let nop_unimpl: Vec<u8> = vec![0x00, 0x00]; // NOP: valid H8/300H, not implemented by the emulator
@@ -44,6 +50,9 @@ pub fn build(isa: &Isa, shape: usize, n: u32, fail: usize) -> Prog {
         c.extend(&nop_unimpl);
     }
     c.extend(asm(isa, "MOV.L #xx:32,ERd", f(0, 0, 0x00c0_ffee)));
+    for _ in 0..pad {
+        c.extend(asm(isa, "MOV.B @aa:8,Rd", Fields { rd: 14, data: 0x10, ..Default::default() }));
+    }
     let bne = |c: &mut Vec<u8>, top: usize| {
         let here = c.len() + 2;
         c.extend(asm(isa, "Bcc d:8", Fields { cc: 6, data: (top as i32 - here as i32) as u32 & 0xff, ..Default::default() }));
@@ -149,7 +158,7 @@ pub fn build(isa: &Isa, shape: usize, n: u32, fail: usize) -> Prog {
         c.extend(asm(isa, "BCLR #xx:3,@aa:8", Fields { bitn: 5, data: 0x82, ..Default::default() }));
         c.extend(asm(isa, "RTE", Fields::default()));
     }
-    Prog { code: c, exit_addr, vectors, desc: format!("shape{} n={} fail={}", shape, n, fail) }
+    Prog { code: c, exit_addr, vectors, desc: format!("shape{} n={} fail={} pad={}", shape, n, fail, pad) }
 }
 
 pub struct Pair {
@@ -159,6 +168,8 @@ pub struct Pair {
     pub real_tx_in: Sender<String>,
     pub twin_rx: Receiver<String>,
     _twin_tx_in: Sender<String>,
+    /// host stalls injected by the run-loop hook: (loop iteration, milliseconds the host "was descheduled")
+    pub stalls: Vec<(u64, u64)>,
 }
 
 impl Pair {
@@ -171,7 +182,7 @@ impl Pair {
         let (out_tx2, twin_rx) = channel();
         let (twin_tx_in, in_rx2) = channel();
         twin.vh_attach_channels(out_tx2, in_rx2);
-        Pair { real, twin, real_rx, real_tx_in, twin_rx, _twin_tx_in: twin_tx_in }
+        Pair { real, twin, real_rx, real_tx_in, twin_rx, _twin_tx_in: twin_tx_in, stalls: Vec::new() }
     }
 
     pub fn load(&mut self, p: &Prog) {
@@ -225,6 +236,7 @@ pub struct Outcome {
     pub messages: Vec<String>,
     pub syncs: usize,
     pub factor: usize,
+    pub exact_landings: usize,
 }
 
 struct Follow {
@@ -236,6 +248,8 @@ struct Follow {
     fail: Option<String>,
     exit_addr: u32,
     syncs: usize,
+    /// instruction boundaries at which the total was exactly a multiple of the sync interval
+    exact_landings: usize,
 }
 
 impl Follow {
@@ -279,6 +293,9 @@ impl Follow {
         if total / SYNC != before / SYNC {
             self.expected_msgs.push(format!("sync:{}", total));
             self.syncs += 1;
+            if total % SYNC == 0 {
+                self.exact_landings += 1;
+            }
         }
         if let Err(e) = t.vh_update_modules(delta as u16) {
             self.fail = Some(format!("update_modules failed on the twin: {:#}", e));
@@ -309,10 +326,17 @@ pub fn run_checked(pair: &mut Pair, p: &Prog, horizon: u64) -> (Outcome, Option<
     pair.load(p);
     let twin = std::mem::replace(&mut pair.twin, Cpu::new());
     let twin_rx = std::mem::replace(&mut pair.twin_rx, channel().1);
-    let fol = Rc::new(RefCell::new(Follow { twin, twin_rx, expected_msgs: Vec::new(), factor: 0, count: 0, fail: None, exit_addr: p.exit_addr, syncs: 0 }));
+    let fol = Rc::new(RefCell::new(Follow { twin, twin_rx, expected_msgs: Vec::new(), factor: 0, count: 0, fail: None, exit_addr: p.exit_addr, syncs: 0, exact_landings: 0 }));
     let f2 = fol.clone();
     let mut iter = 0u64;
+    let stalls = pair.stalls.clone();
     verif_hooks::set_run_loop_hook(Some(Box::new(move |cpu: &mut Cpu| {
+        for &(at, ms) in stalls.iter() {
+            if at == iter {
+                // the host is descheduled here for `ms` milliseconds (an environment choice the harness makes)
+                std::thread::sleep(std::time::Duration::from_millis(ms));
+            }
+        }
         let mut f = f2.borrow_mut();
         if iter == 0 {
             // run() has set PC from ER2 and programmed the bus controller: the twin starts from the same point
@@ -329,7 +353,22 @@ pub fn run_checked(pair: &mut Pair, p: &Prog, horizon: u64) -> (Outcome, Option<
         iter += 1;
         f.fail.is_some() || iter > horizon
     })));
-    let r = pair.real.run();
+    let (r, panicked): (anyhow::Result<()>, Option<String>) = {
+        let real = &mut pair.real;
+        match std::panic::catch_unwind(std::panic::AssertUnwindSafe(|| real.run())) {
+            Ok(r) => (r, None),
+            Err(p) => {
+                let msg = if let Some(s) = p.downcast_ref::<&str>() {
+                    s.to_string()
+                } else if let Some(s) = p.downcast_ref::<String>() {
+                    s.clone()
+                } else {
+                    "panic".to_string()
+                };
+                (Err(anyhow::anyhow!("run() panicked")), Some(format!("{} @ {}", msg, crate::hv::panics::take_last_location())))
+            }
+        }
+    };
     verif_hooks::set_run_loop_hook(None);
     let mut f = match Rc::try_unwrap(fol) {
         Ok(c) => c.into_inner(),
@@ -341,6 +380,9 @@ pub fn run_checked(pair: &mut Pair, p: &Prog, horizon: u64) -> (Outcome, Option<
         Err(e) => format!("err: {:#}", e).chars().take(200).collect(),
     };
     let mut verdict = f.fail.take();
+    if let Some(p) = &panicked {
+        verdict = Some(format!("run() panicked instead of returning: {}", p));
+    }
     if verdict.is_none() {
         match &r {
             Ok(()) => {
@@ -381,6 +423,7 @@ pub fn run_checked(pair: &mut Pair, p: &Prog, horizon: u64) -> (Outcome, Option<
     out.messages = pair.real_rx.try_iter().collect();
     out.syncs = f.syncs;
     out.factor = f.factor;
+    out.exact_landings = f.exact_landings;
     if verdict.is_none() {
         if out.messages != f.expected_msgs {
             let k = out.messages.iter().zip(f.expected_msgs.iter()).position(|(a, b)| a != b).unwrap_or(out.messages.len().min(f.expected_msgs.len()));
@@ -454,6 +497,65 @@ fn c13_units(tier: Tier) -> Vec<Unit> {
             }));
         }
     }
+    // ---- totals that land exactly on a multiple of the sync interval (every charge is a multiple of 3, so
+    //      6,000,000 is the first multiple that can be hit exactly)
+    units.push(Unit::new(
+        "sync-exact",
+        16,
+        "guest shape 1 with 0-15 padding instructions in front of the loop (each shifts every later total by the cost of one byte read from on-chip RAM) and a loop count that carries the total past 6,000,000 states: among the 16 programs are ones whose total is exactly 6,000,000 at an instruction boundary (counted in the evidence); the sync for that multiple must be emitted once, as for any other crossing",
+        move |ctx, chunk| {
+            let mut pair = Pair::new();
+            let (a, b) = measure(&mut pair, &ctx.isa, 1);
+            let n = ((3 * SYNC + 3 * b) / b) as u32 + 2;
+            let _ = a;
+            let p = build_pad(&ctx.isa, 1, n, 0, chunk as usize);
+            let (o, v) = run_checked(&mut pair, &p, 50_000_000);
+            ctx.st.cases += 1;
+            ctx.st.nontrivial += 1;
+            *ctx.st.notes.entry("instructions executed through run()".into()).or_insert(0) += o.instructions;
+            *ctx.st.notes.entry("sync messages checked".into()).or_insert(0) += o.syncs as u64;
+            *ctx.st.notes.entry("totals exactly on a sync multiple at an instruction boundary".into()).or_insert(0) += o.exact_landings as u64;
+            let case = json!({"shape": 1, "n": n, "fail": 0, "pad": chunk});
+            if let Some(msg) = v {
+                ctx.custom_violation("c13", msg, case, json!(null), json!({"result": o.result, "state_sum": o.state_sum, "messages": o.messages.iter().take(6).collect::<Vec<_>>()}));
+            } else if o.result != "ok" {
+                ctx.custom_violation("c13", format!("terminating guest did not finish: {}", o.result), case, json!(null), json!(null));
+            }
+        },
+    ));
+    // ---- the host falls behind: stalls injected at loop iterations (deviation bound 1, plus one run with three)
+    units.push(Unit::new(
+        "host-stall",
+        14,
+        "guest shape 1 and 3 with about 130,000 states (6 pacing periods): the run-loop hook stalls the host for 3 ms at one loop iteration (13 positions spread over the run, and one run with three stalls); the result, state count and message sequence must be those of the undisturbed run and run() must return normally",
+        move |ctx, chunk| {
+            for shape in [1usize, 3] {
+                let mut pair = Pair::new();
+                let (a, b) = measure(&mut pair, &ctx.isa, shape);
+                let n = ((130_000usize.saturating_sub(a)) / b).max(10) as u32;
+                let p = build(&ctx.isa, shape, n, 0);
+                let (base, v0) = run_checked(&mut pair, &p, 5_000_000);
+                if v0.is_some() || base.result != "ok" {
+                    ctx.custom_violation("c13", format!("undisturbed run: {:?} {}", v0, base.result), json!({"shape": shape, "n": n, "fail": 0}), json!(null), json!(null));
+                    continue;
+                }
+                let step = (base.instructions / 13).max(1);
+                pair.stalls = if chunk < 13 { vec![(1 + chunk * step, 3)] } else { vec![(2, 3), (base.instructions / 2, 3), (base.instructions - 2, 3)] };
+                let stalls = pair.stalls.clone();
+                let (o, v) = run_checked(&mut pair, &p, 5_000_000);
+                pair.stalls.clear();
+                ctx.st.cases += 1;
+                ctx.st.nontrivial += 1;
+                *ctx.st.notes.entry("instructions executed through run()".into()).or_insert(0) += o.instructions;
+                let case = json!({"shape": shape, "n": n, "fail": 0, "stalls": stalls.iter().map(|x| json!([x.0, x.1])).collect::<Vec<_>>()});
+                if let Some(msg) = v {
+                    ctx.custom_violation("c13", format!("with the host stalled at {:?}: {}", stalls, msg), case, json!(null), json!({"result": o.result}));
+                } else if o.result != base.result || o.state_sum != base.state_sum || o.er != base.er || o.messages != base.messages || o.pc != base.pc {
+                    ctx.custom_violation("c13", format!("with the host stalled at {:?} the run differs from the undisturbed one: result {} vs {}, state count {} vs {}, {} vs {} messages", stalls, o.result, base.result, o.state_sum, base.state_sum, o.messages.len(), base.messages.len()), case, json!(null), json!(null));
+                }
+            }
+        },
+    ));
     units.push(Unit::new(
         "failing-instruction",
         1,
@@ -532,7 +634,10 @@ pub fn replay_c13(case: &Value) -> bool {
     let isa = Isa::new();
     let mut pair = Pair::new();
     let shape = case["shape"].as_u64().unwrap_or(1) as usize;
-    let p = build(&isa, shape, case["n"].as_u64().unwrap_or(1) as u32, case["fail"].as_u64().unwrap_or(0) as usize);
+    let p = build_pad(&isa, shape, case["n"].as_u64().unwrap_or(1) as u32, case["fail"].as_u64().unwrap_or(0) as usize, case["pad"].as_u64().unwrap_or(0) as usize);
+    if let Some(st) = case["stalls"].as_array() {
+        pair.stalls = st.iter().map(|x| (x[0].as_u64().unwrap_or(0), x[1].as_u64().unwrap_or(0))).collect();
+    }
     let (o, v) = run_checked(&mut pair, &p, 50_000_000);
     println!("{}: result {} state_sum {} instructions {} syncs {}", p.desc, o.result, o.state_sum, o.instructions, o.syncs);
     match v {
